@@ -21,7 +21,7 @@ from pyxsym.sym import s_and, s_or, s_not, ite, is_sym, Sym, CFault
 from pyxsym.values import CVector, VecPtr
 
 REPLAY = ("replay_drivers.C09", "replay")
-LOOP_FACETS = ["rules", "dt-rule", "schedule", "step", "invariant"]
+LOOP_FACETS = ["rules", "dt-rule", "schedule", "record", "invariant"]
 
 
 def _report(c, cond, label, sig=None, rp=None, syms=None):
@@ -342,7 +342,7 @@ def check(tier):
                 ck.add("interface/%d/%s/%d" % (idx, mk, n), "harness.C09", "interface_job", dict(cases=[(idx, mk, n)]))
     ssa = C05.cases(tier)
     for cse in ssa:
-        ck.add("ssa-step/S%dR%dT%d/ci%d" % cse, "harness.C05", "step_job", dict(cases=[cse], rules=True))
+        ck.add("ssa-step/S%dR%dT%d/ci%d" % cse, "harness.C05", "step_job", dict(cases=[cse], rules=True, facets=LOOP_FACETS))
     sizes = [(2, 2, 2, 2)] if tier == "quick" else [(2, 2, 2, 2), (2, 2, 3, 3)]
     for (S, R, T, C) in sizes:
         for ci in range(T):
@@ -386,7 +386,7 @@ def check(tier):
     ]
     for name, m, which in mut:
         if which == "ssa":
-            ck.add_mutant(name, m, "ssa", "harness.C05", "step_job", dict(cases=[(2, 2, 3, 1), (2, 2, 3, 0)], rules=True))
+            ck.add_mutant(name, m, "ssa", "harness.C05", "step_job", dict(cases=[(2, 2, 3, 1), (2, 2, 3, 0)], rules=True, facets=LOOP_FACETS))
         elif which == "kernel":
             ck.add_mutant(name, m, "kernel", "harness.C09", "kernel_job", dict(cases=[("assign_s", "time")]))
         elif which == "kernel2":
@@ -395,6 +395,7 @@ def check(tier):
             ck.add_mutant(name, m, "interface", "harness.C09", "interface_job", dict(cases=[(0, "plain", 1)]))
         else:
             ck.add_mutant(name, m, "det", "harness.C09", "deterministic_job", dict(cases=[(2, 2, 2)]), fresh=True)
+    ck.oracle_selftest = [{'kind': 'delay'}, {'kind': 'delay_volume'}]
     ck.validate = ['ssa', 'delay_ssa', 'delay_volume_ssa']
     ck.run()
     return ck.finish(replay=REPLAY)
